@@ -1,4 +1,6 @@
 SPECIFICATION Spec
 CONSTANT WithPairs = TRUE
-INVARIANT Emit
+INVARIANT NominalOnNpu
+INVARIANT PairsAreCpu
+INVARIANT WellFormed
 CHECK_DEADLOCK FALSE
